@@ -19,3 +19,5 @@ func InstallTempFiles() {}
 var WorkDir = "/work"
 
 func InstallDirListing() {}
+
+func Children(base string) []string { return nil }
